@@ -829,6 +829,17 @@ pub fn gen_push_ops(rng: &mut Rng, len: usize, count: usize) -> Vec<(usize, crat
             crate::fe::PushOp::Reset
         };
         v.push((pos, op));
+        if rng.chance(1, 5) {
+            // the same call (or the other one) again, right away
+            let op2 = if rng.chance(1, 2) {
+                op
+            } else if op == crate::fe::PushOp::Finalize {
+                crate::fe::PushOp::Reset
+            } else {
+                crate::fe::PushOp::Finalize
+            };
+            v.push((pos, op2));
+        }
     }
     v.sort_by_key(|(p, _)| *p);
     v
